@@ -313,6 +313,14 @@ def build_cmsg(ch, rng=None):
     lines.append(('head', line_text(t), eol, t))
     fold_te = te != 'none'
     fold_cl = not fold_te and cl != 'none'
+    if r and r.random() < 0.05:
+        # ONE field line (lines end at LF) whose value holds an octet that str.splitlines() takes for a line end,
+        # followed by text that looks like a framing field: it is part of that value and frames nothing
+        sep = r.choice([b'\xc3\x85', b'\x85', b'\x0c', b'\x0b', b'\x1c', b'\x1d', b'\x1e'])
+        ph = r.choice([b'Content-Length: 1', b'Content-Length: 0', b'Transfer-Encoding: chunked', b'Connection: close',
+                       b'Content-Encoding: gzip'])
+        lines.append(('head', b'X-Author: J' + sep + ph, eol, None))
+        nonabs.append(2)
     fields = []
     pads = r.sample(range(2, len(PADS) + 1), r.randrange(0, 4)) if r else []
     if coded and PAD_CE_GZIP + 1 not in pads:
@@ -345,6 +353,7 @@ def build_cmsg(ch, rng=None):
     cm['ihead'] = b''.join(c + e for (p, c, e, t) in lines if p == 'ihead')
     cm['interim_code'] = ch.get('icode', 100) if ch.get('interim') else 100
     cm['nonabstract'] = bool(nonabs) or status in (205, 404)
+    cm['vspace'] = 2 in nonabs
     cm['head'] = b''.join(c + e for (p, c, e, t) in lines if p == 'head')
     if chk:
         pos = 0
@@ -419,7 +428,7 @@ def _chunks(rng, n, lo, hi):
 
 
 # ------------------------------------------------------------------------------------------ input classes (signatures)
-def msg_class(cm, fix=(False, False, False, False, False)):
+def msg_class(cm, fix=(False, False, False, False, False), weak=False):
     """The input class of a message, as used in violation signatures (None: an ordinary message).  fix = the
     variant of the code under test (FixTE, FixNoBody, Fix1xx, FixBadCL as probed by the driver): a class whose
     defect is repaired in that variant is an ordinary input there."""
@@ -439,6 +448,9 @@ def msg_class(cm, fix=(False, False, False, False, False)):
         return {'class': 'invalid-content-length', 'cl': 'nonnum' if cm['clv'] == CL_NONNUM else 'neg'}
     if cm['hascl'] and cm['clok'] and not cm['te'] and not bodyless and cm['clv'] == 0 and len(cm['raw']) > 0:
         return {'class': 'overrun', 'cl': 0}
+    if weak and cm.get('vspace'):
+        # a description only (asked for last, so that it never hides an inherited class)
+        return {'class': 'line-break-octet-inside-field-value'}
     return None
 
 
